@@ -11,11 +11,12 @@
                            and the folders found are walked depth-first
      _get_json / _send   : Send -> (transport raises | response) -> close (finally) -> checks
 
-   SERVER MODEL  srv = [n, parent, kind, name, cr, mo, P, tail]
+   SERVER MODEL  srv = [n, parent, kind, name, cr, mo, P, tail, lead]
      nodes 1..n, node 0 = drive root; parent[i] < i is not required, only that parent is the
      root or a folder; kind[i] \in {"file","folder","other"}; children of a folder are served in
      node order, P per page, through opaque nextLinks; tail = TRUE: a folder whose child count is
-     a positive multiple of P gets a trailing EMPTY page (Graph may do that).  name/cr/mo: code
+     a positive multiple of P gets a trailing EMPTY page (Graph may do that); lead = TRUE: the
+     listing of a folder with children opens with an EMPTY page that carries a nextLink.  name/cr/mo: code
      points / dates for GraphFilter.  Sibling names are unique.  The kind of an item is carried by
      the PRESENCE of its facet key ("file" / "folder" / neither) alone: the facet's content (empty
      object, childCount, mimeType, hashes, ...) and every optional member (size, webUrl, dates,
@@ -87,10 +88,16 @@ NodeSeq(s) == [i \in 1..s.n |-> i]
 ChildSeq(s, f) == SelectSeq(NodeSeq(s), LAMBDA i : s.parent[i] = f)
 IsFolder(s, f) == f = Root \/ (f \in 1..s.n /\ s.kind[f] = "folder")
 
+\* lead = TRUE: the listing of every folder that has children OPENS with an empty page that carries a nextLink (Graph
+\* answers so when a server-side filter / security trimming empties a page): the children start on page 2
+LeadPages(s, f) == IF s.lead /\ Len(ChildSeq(s, f)) > 0 THEN 1 ELSE 0
 NPages(s, f) == LET c == Len(ChildSeq(s, f)) IN
-    IF c = 0 THEN 1
-    ELSE IF s.tail /\ c % s.P = 0 THEN (c \div s.P) + 1 ELSE (c + s.P - 1) \div s.P
-PageItems(s, f, p) == LET cs == ChildSeq(s, f) IN SubSeq(cs, (p - 1) * s.P + 1, Min(p * s.P, Len(cs)))
+    LeadPages(s, f) +
+    (IF c = 0 THEN 1
+     ELSE IF s.tail /\ c % s.P = 0 THEN (c \div s.P) + 1 ELSE (c + s.P - 1) \div s.P)
+PageItems(s, f, p) == LET cs == ChildSeq(s, f)
+                          q  == p - LeadPages(s, f)
+                      IN IF q < 1 THEN <<>> ELSE SubSeq(cs, (q - 1) * s.P + 1, Min(q * s.P, Len(cs)))
 
 RECURSIVE PathTo(_, _)
 PathTo(s, f) == IF f = Root THEN <<>> ELSE Append(PathTo(s, s.parent[f]), s.name[f])
@@ -383,12 +390,15 @@ Trees(n) ==
     { [n |-> n, parent |-> pa, kind |-> ki] :
         pa \in { q \in [1..n -> 0..n] : \A i \in 1..n : q[i] < i },
         ki \in [1..n -> {"file", "folder"}] }
-SrvOf(t, P, tail) ==
+SrvOf(t, P, tail, lead) ==
     [n |-> t.n, parent |-> t.parent, kind |-> t.kind, name |-> [i \in 1..t.n |-> <<96 + i>>],
-     cr |-> [i \in 1..t.n |-> OkDate], mo |-> [i \in 1..t.n |-> OkDate], P |-> P, tail |-> tail]
+     cr |-> [i \in 1..t.n |-> OkDate], mo |-> [i \in 1..t.n |-> OkDate], P |-> P, tail |-> tail, lead |-> lead]
 HasFullLastPage(s) == \E f \in 0..s.n : IsFolder(s, f) /\ Len(ChildSeq(s, f)) > 0 /\ Len(ChildSeq(s, f)) % s.P = 0
-Servers == { s \in { SrvOf(t, P, tl) : t \in UNION { Trees(n) : n \in 0..MaxNodes }, P \in 1..MaxP, tl \in BOOLEAN } :
-               WellFormedSrv(s) /\ (s.tail => HasFullLastPage(s)) }      \* tail only where it changes something
+Servers == { s \in { SrvOf(t, P, tl, ld) : t \in UNION { Trees(n) : n \in 0..MaxNodes }, P \in 1..MaxP,
+                                             tl \in BOOLEAN, ld \in BOOLEAN } :
+               /\ WellFormedSrv(s)
+               /\ (s.tail => HasFullLastPage(s))                          \* tail only where it changes something
+               /\ (s.lead => (s.n > 0 /\ ~s.tail)) }                     \* lead likewise (and not combined with tail)
 
 \* folder targets: one existing folder, one file (not a folder), one missing name -- as name paths
 MissingPath == << <<63>> >>                         \* "?": a name no node carries
